@@ -455,6 +455,9 @@ theorem Integ_step (H : Body → String) (s : State) (p : Prim) (h : Integ H s) 
   | cmpCommit n now =>
     refine h.same ?_ ?_ ?_ ?_ ?_ <;> simp only [applyPrim, applyDisk, applyMem] <;>
       (try intro l) <;> split <;> (try cases l) <;> simp [lnk]
+  | rmCmpIf n hh =>
+    refine h.same ?_ ?_ ?_ ?_ ?_ <;> simp only [applyPrim, applyDisk, applyMem] <;>
+      (try intro l) <;> (try split) <;> (try split) <;> (try cases l) <;> simp [lnk]
   | waitAdd a b c =>
     refine h.same ?_ ?_ ?_ ?_ ?_ <;> simp only [applyPrim, applyDisk, applyMem] <;>
       (try intro l) <;> (try split) <;> (try cases l) <;> simp [lnk]
@@ -807,7 +810,8 @@ theorem all_calm_easy (ps : List Prim) (h : ps.all calm = true) : ps.all easy = 
 
 theorem calm_wb (s : State) (p : Prim) (h : calm p = true) :
     (applyPrim s p).disk.wait = s.disk.wait ∧ (applyPrim s p).disk.body = s.disk.body := by
-  cases p <;> simp [calm] at h <;> simp only [applyPrim, applyDisk] <;> (try split) <;> simp
+  cases p <;> simp [calm] at h <;> simp only [applyPrim, applyDisk] <;> (try split) <;>
+    (try split) <;> simp
 
 theorem run_calm_wb (s : State) (ps : List Prim) (h : ps.all calm = true) :
     (run s ps).disk.wait = s.disk.wait ∧ (run s ps).disk.body = s.disk.body := by
